@@ -79,8 +79,8 @@ ITER_MAKERS = [
     r"^std::iter::Iterator::copied$",
     r"^std::iter::Iterator::peekable$",
     r"^std::iter::Iterator::by_ref$",
-    r"^std::str::<impl str>::chars$",
-    r"^std::str::<impl str>::char_indices$",
+    r"^(std|core)::str::<impl str>::chars$",
+    r"^(std|core)::str::<impl str>::char_indices$",
 ]
 _ITER_MAKERS = [re.compile(x) for x in ITER_MAKERS]
 
@@ -289,7 +289,7 @@ class Origins:
             # skip(n), cloned() keep the base
             out = set()
             for a in first():
-                if a[0] in ("iter", "enum", "rev"):
+                if a[0] in ("iter", "enum", "rev", "adapt"):
                     out.add(a)
                 else:
                     out.add(("iter", a))
